@@ -302,9 +302,15 @@ func (p *prog) newOp(dt *dtInfo, f func() (*tensor.Dense, error)) *rec {
 	return simple(res)
 }
 
+// extSteps: step keywords handled by operation-family files (registered in their init()).
+var extSteps = map[string]func(p *prog, idx int, toks []string) *rec{}
+
 func (p *prog) step(idx int, toks []string) *rec {
 	if len(toks) == 0 {
 		return simple("badprog")
+	}
+	if f, ok := extSteps[toks[0]]; ok {
+		return f(p, idx, toks)
 	}
 	switch toks[0] {
 	case "new":
